@@ -26,6 +26,8 @@ for it in reversed(json.load(sys.stdin)):      # opposite order: a rendering mus
     try:
         if it['route'] == 'parsed':
             db = PyDBML(print_doc(it['doc'], it['fseed'], it['pinned']), allow_properties=it['model']['allowprops'])
+        elif it['route'].startswith('morphed'):
+            db = builder.build_morphed(it['model'], it['route'].split(':')[1].split('+'))
         else:
             db = builder.build(it['model'])
         out[str(it['tid'])] = hashlib.sha1(db.sql.encode('utf8')).hexdigest()
@@ -56,6 +58,8 @@ def _exec_chunk(items):
         try:
             if it['route'] == 'parsed':
                 db = PyDBML(print_doc(it['doc'], it['fseed'], it['pinned']), allow_properties=m['allowprops'])
+            elif it['route'].startswith('morphed'):
+                db = builder.build_morphed(m, it['route'].split(':')[1].split('+'))
             else:
                 db = builder.build(m)
             rec['s0'] = pj.project_db(db)
@@ -177,7 +181,8 @@ def standard_main(prop: str, clauses: List[str], technique: str, rule: str, nont
         tid = 0
         ms = docs.gen_models(lo, lo + n - 1, False, True, rep)
         for seed, dm in ms:
-            for route in ('parsed', 'built'):
+            # morphed: built from another content, rendered, then edited in place into this one (pv/builder.py)
+            for route in ('parsed', 'built', 'morphed:' + ('names', 'types', 'settings', 'names+types+settings')[seed % 4]):
                 tid += 1
                 items[tid] = {'tid': tid, 'route': route, 'doc': dm['doc'], 'model': dm['model'], 'fseed': None, 'pinned': {},
                               'seed': seed}
